@@ -93,3 +93,17 @@ async fn reconnect_with_different_key_is_refused_not_fatal() {
     }
     if matches!(peer.peer_status, PeerStatus::Connected) && peer.public_key != Some(k2) { witness("connected under a key other than the signer's".to_string()); }
 }
+
+/// C17: whatever state the peer object is in, closing the connection drops the challenge issued on it — a response made
+/// for the challenge of an earlier connection must find nothing pending
+#[test]
+fn disconnect_drops_pending_challenge() {
+    for (name, status) in [("Connected", PeerStatus::Connected), ("Connecting", PeerStatus::Connecting), ("already Disconnected", PeerStatus::Disconnected(5, 1_000))] {
+        let mut peer = Peer::new(3);
+        peer.peer_status = status;
+        peer.challenge_for_peer = Some([7u8; 32]);
+        peer.mark_as_disconnected(1234);
+        if peer.challenge_for_peer.is_some() { witness(format!("peer in state {} with a pending challenge: after mark_as_disconnected the challenge is still pending — a response signed over it on a later connection would be accepted", name)); }
+        if matches!(peer.peer_status, PeerStatus::Connected) { witness(format!("peer in state {} is still connected after mark_as_disconnected", name)); }
+    }
+}
